@@ -2,6 +2,7 @@ import LekkerVerif.Model.DriverBase
 import LekkerVerif.Model.DriverStack
 import LekkerVerif.Model.DriverParams
 import LekkerVerif.Model.DriverWiring
+import LekkerVerif.Model.DriverSplit
 /-! Driver ops.  Each op runs executable definitions of the model on the decoded request. -/
 open Lean
 
@@ -132,6 +133,7 @@ def dispatch (j : Json) : Json :=
   | some "stack" => opStack j
   | some "rename" => opRename j
   | some "wiring" => opWiring j
+  | some "split" => opSplit j
   | some "ping" => Json.mkObj [("ok", true)]
   | _ => errJson "unknown-op"
 
